@@ -99,7 +99,14 @@ def _run(V, work, tier):
     # ---- wide family
     nw = 1500 if thorough else 300
     wide = [{"id": "w%d" % i, "seq": [wide_program(rnd)], "cfg": {}} for i in range(nw)]
-    allp = mdrv + wide
+    # the runtime's own listings of what the standard packages (registered from Go tables) and lisp packages export
+    PKGS = ["lisp", "s", "math", "json", "time", "string", "regexp", "base64", "elpspath", "golang", "help", "testing", "user"]
+    listing = [{"id": "h-packages", "seq": ["(help:help-packages)"], "cfg": {}}]
+    for pk in PKGS:
+        listing.append({"id": "h-sym-" + pk, "seq": ["(help:help-package-symbols '%s)\n(help:help-package-symbols '%s true)" % (pk, pk)], "cfg": {}})
+        listing.append({"id": "h-doc-" + pk, "seq": ["(help:help-package '%s)" % pk], "cfg": {}})
+    listing.append({"id": "h-own", "seq": ["(in-package 'mine)\n(export 'zz 'aa 'mm 'aa)\n(export 'bb)\n(set 'zz 1)\n(defun aa () 1)\n(in-package 'user)\n(help:help-package-symbols 'mine)\n(use-package 'mine)\n(help:help-package-symbols 'user true)"], "cfg": {}})
+    allp = mdrv + wide + listing
     reps = 8 if thorough else 4
     # one process: every program `reps` times at shuffled positions (other runtimes ran other things in between)
     stream = []
